@@ -37,6 +37,9 @@ def slot_of(cls):
                 a0 = x.left.args[0]
                 if isinstance(a0, ast.Name):
                     a0 = deref(f, a0, None)       # `key = self.__key; ... len(key) == N`
+                if isinstance(a0, ast.BoolOp) and isinstance(a0.op, ast.Or) and len(a0.values) == 2 and isinstance(a0.values[1], ast.Constant) \
+                        and a0.values[1].value in (b"", "", None):
+                    a0 = a0.values[0]             # len(self.__key or b"")
                 if isinstance(a0, ast.Attribute) and isinstance(a0.value, ast.Name) and a0.value.id == f.self_name:
                     return a0.attr, f, x
     return None, None, None
